@@ -269,6 +269,10 @@ class FSM(object):
         """
         if self.state in (bgp_cons.ST_CONNECT, bgp_cons.ST_ACTIVE):
             # State Connect, Event 16 or 17
+            # every connection starts from the configured timer values, not from
+            # what was negotiated with the peer OPEN of an earlier connection
+            self.hold_time = CONF.time.hold_time
+            self.keep_alive_time = CONF.time.keep_alive_time
             if self.delay_open:
                 self.connect_retry_timer.cancel()
                 LOG.info('Delay open for this peer')
